@@ -195,7 +195,7 @@ def kinds_of(value: Any) -> List[str]:
     if isinstance(value, (int, float)):
         return ["inc"]
     if isinstance(value, str):
-        return ["meta", "alt"]
+        return ["meta", "alt"] + (["empty"] if value else [])
     if isinstance(value, (bytes, bytearray)):
         return ["alt"]
     if isinstance(value, list):
@@ -225,6 +225,8 @@ def perturbed(value: Any, kind: str) -> Any:
         return members[(members.index(value) + 1) % len(members)]
     if kind == "inc":
         return value + 1
+    if kind == "empty":
+        return ""
     if kind == "meta":
         return META
     if kind == "alt":
